@@ -156,13 +156,16 @@ def cases(size, seed):
     for a in vals:
         for op in ('neg', 'abs', 'floor', 'ceiling', 'sqrt', 'ln', 'odd', 'even', 'integer', 'usize', 'isize'):
             out.append((op, a, None))
+    # ln of whole numbers whose last three digits are those of a stored constant's argument (2, 10): the shortcut must look at the whole coefficient
+    for t in ('1002', '2002', '3002', '12345002', '1000002', '1010', '2010', '12010', '1000010', '100', '1000', '20', '200', '1001', '1003'):
+        out.append(('ln', Decimal(t), None))
     # exp: arguments around the tiny-argument shortcuts and up to the overflow edge
     for k in ('1', '2', '2.5', '3', '3.9', '4', '4.1', '5', '9', '9.99'):
         for e in list(range(-40, 5)):
             for s in ('', '-'):
                 out.append(('exp', Decimal('%s%sE%d' % (s, k, e)), None))
     # decimal(x, n): exact ties, just above / below a tie with sticky tails of every length, even and odd kept digit
-    for kept in ('0', '1', '2', '3', '4', '12', '13', '99', '100'):
+    for kept in ('0', '1', '2', '3', '4', '12', '13', '99', '100', '999', '9999', '99999', '9999999', '1999', '19999'):
         for zeros in range(0, 31):
             for tail in ('', '1', '9'):
                 for half in ('5', '4', '6', '49', '51', '50'):
